@@ -847,6 +847,37 @@ func init() {
 		loc := c18Locs[c.p[0]]
 		liftMap(c, fmt.Sprintf("rotime.In(%q)", loc.String()), genItems(c, genTime), rotime.In(loc), func(t time.Time) time.Time { return t.In(loc) }, snapTime, snapTime)
 	})
+	// Random: every item is replaced by a random text of exactly `size` runes, all taken from the charset
+	// (judged on that shape: the snapshot is the rune count and whether every rune belongs to the charset)
+	{
+		sizes := []int{1, 2, 7, 64, 300}
+		charsets := [][]rune{rostrings.LowerCaseLettersCharset, rostrings.NumbersCharset, rostrings.SpecialCharset, rostrings.AllCharset, []rune("é漢x"), []rune("q")}
+		shape := func(size int, cs []rune) func(string) string {
+			return func(out string) string {
+				ok := true
+				for _, r := range out {
+					found := false
+					for _, c := range cs {
+						found = found || c == r
+					}
+					ok = ok && found
+				}
+				return fmt.Sprintf("runes=%d all-in-charset=%v valid-utf8=%v", utf8.RuneCountInString(out), ok, utf8.ValidString(out))
+			}
+		}
+		regLift("strings.Random", []int{len(sizes), len(charsets)}, func(c *liftCtx) {
+			size, cs := sizes[c.p[0]], charsets[c.p[1]]
+			sh := shape(size, cs)
+			liftMap(c, fmt.Sprintf("rostrings.Random(%d,%q)", size, string(cs)), genItems(c, func(r *simrt.Rng) int { return r.Intn(100) }), rostrings.Random[int](size, cs),
+				func(int) string { return strings.Repeat(string(cs[0]), size) }, func(v int) string { return strconv.Itoa(v) }, sh)
+		})
+		regLift("bytes.Random", []int{len(sizes), len(charsets)}, func(c *liftCtx) {
+			size, cs := sizes[c.p[0]], charsets[c.p[1]]
+			sh := shape(size, cs)
+			liftMap(c, fmt.Sprintf("robytes.Random(%d,%q)", size, string(cs)), genItems(c, func(r *simrt.Rng) int { return r.Intn(100) }), robytes.Random[int](size, cs),
+				func(int) []byte { return []byte(strings.Repeat(string(cs[0]), size)) }, func(v int) string { return strconv.Itoa(v) }, func(b []byte) string { return sh(string(b)) })
+		})
+	}
 	regLift("time.Parse", []int{len(c18Layouts), 1 + len(c18Locals)}, func(c *liftCtx) {
 		l := c18Layouts[c.p[0]]
 		if len(c.p) > 1 && c.p[1] > 0 && c.p[1] <= len(c18Locals) {
